@@ -18,9 +18,36 @@ impl Engine {
     /// Executes one op on library and model. Err = violation.
     pub fn step(&mut self, op: &Op) -> Result<(), Fail> {
         self.stats.ops_run += 1;
+        if let Op::HOpen { slot, .. } | Op::HCreate { slot, .. } = op {
+            // the slot's previous handle is closed (and thereby flushed) by the harness
+            // before the call whose effect is judged
+            let s = *slot as usize % self.handles.len();
+            self.close_slot(s)?;
+        }
         let before = if self.oracles.bytes_on_refusal { Some(self.snapshot()) } else { None };
         let refusals_before = self.stats.refusals;
+        let bytes_before = if self.oracles.track_tables || self.oracles.bytes_on_refusal { self.model_bytes() } else { 0 };
         let r = self.step_inner(op);
+        if r.is_ok() {
+            let refused = self.stats.refusals > refusals_before;
+            if op.is_mutation() && !refused {
+                self.succ_mutations += 1;
+                if self.pending_refusal {
+                    self.stats.bump("refusal_mid_history");
+                    self.pending_refusal = false;
+                }
+            } else if refused && self.succ_mutations >= 1 && self.model.count() >= 3 {
+                self.pending_refusal = true;
+            }
+            if self.oracles.track_tables {
+                let after = self.model_bytes();
+                if after < bytes_before {
+                    self.freed = true;
+                } else if after > bytes_before && self.freed {
+                    self.stats.bump("freed_then_allocated");
+                }
+            }
+        }
         if let (Ok(()), Some(b)) = (&r, before) {
             if self.stats.refusals > refusals_before {
                 let after = self.snapshot();
@@ -351,7 +378,8 @@ impl Engine {
                 let res = guard("read_storage", || c.read_storage(&path).map(|it| it.map(|e| obs_entry(&e)).collect::<Vec<_>>()))?;
                 let (sit, refusals, names) = self.lookup_refusals(&r, 2);
                 if self.check_outcome("read_storage", &sit, &refusals, &res, &r.show())? {
-                    let exp = self.model.list(&names.unwrap()).unwrap();
+                    let mut exp = self.model.list(&names.unwrap()).unwrap();
+                    self.mask_list(&mut exp);
                     cmp_entries(&exp, res.as_ref().unwrap()).map_err(|m| self.mismatch("read_storage", "exists", "model_listing", "other", format!("read_storage({:?}): {}", r.show(), m)))?;
                 }
             }
@@ -359,7 +387,8 @@ impl Engine {
                 self.trace.push("read_root_storage()".into());
                 let c = self.cfb.as_ref().unwrap();
                 let res = guard("read_root_storage", || c.read_root_storage().map(|e| obs_entry(&e)).collect::<Vec<_>>())?;
-                let exp = self.model.list(&[]).unwrap();
+                let mut exp = self.model.list(&[]).unwrap();
+                self.mask_list(&mut exp);
                 cmp_entries(&exp, &res).map_err(|m| self.mismatch("read_root_storage", "exists", "model_listing", "other", format!("read_root_storage(): {}", m)))?;
             }
             Op::Walk => {
@@ -534,6 +563,16 @@ impl Engine {
         }
     }
 
+    pub fn model_bytes(&self) -> u64 {
+        fn rec(n: &Node) -> u64 {
+            match &n.kind {
+                Kind::Stream { data } => data.len() as u64 + 1,
+                Kind::Storage { children, .. } => 1 + children.iter().map(rec).sum::<u64>(),
+            }
+        }
+        rec(&self.model.root)
+    }
+
     /// Statistics: shape of the node about to be removed, measured on the byte image.
     pub fn note_removal_shape(&mut self, r: &Resolved) {
         if !self.oracles.measure_shapes || self.any_dirty() {
@@ -564,6 +603,11 @@ impl Engine {
     /// Model walk with lengths of dirty-handle streams masked.
     pub fn masked_walk(&self, names: &[String]) -> Vec<EntryInfo> {
         let mut w = self.model.walk(names).unwrap();
+        self.mask_list(&mut w);
+        w
+    }
+
+    pub fn mask_list(&self, w: &mut Vec<EntryInfo>) {
         for h in self.handles.iter().flatten() {
             if h.dirty {
                 let hp = path_string(&h.path);
@@ -574,7 +618,6 @@ impl Engine {
                 }
             }
         }
-        w
     }
 
     pub fn mask_dirty(&self, names: &[String], e: &mut EntryInfo) {
